@@ -38,13 +38,14 @@ Theorem automation_preserves_user_view s c g :
   new_commits_managed_only g (snd (fst (dispatch s c g))).
 Proof. exact (dispatch_view_lemma s c g). Qed.
 
-(* 2. A command that writes nothing, on a repository whose managed files are all staged as they are in
-   the work tree, creates no commit (same class exclusion). *)
+(* 2. For EVERY Git state (no class exclusion): a command that writes nothing, on a repository whose
+   managed files are all staged as they are in the work tree, creates no commit -- whatever is staged,
+   unstaged or stashed, whether or not the Git calls succeed. *)
 Theorem readonly_commands_commit_nothing s c g :
   fixed_P20 s = true -> from_ref s = None -> c_delta c = [] -> c_delta2 c = [] ->
-  managed_clean g -> Known_staged_and_unstaged_same_path c g = false ->
+  managed_clean g ->
   g_log (snd (fst (dispatch s c g))) = g_log g.
-Proof. exact (dispatch_readonly_lemma s c g). Qed.
+Proof. exact (dispatch_readonly_all_lemma s c g). Qed.
 
 (* 3. For EVERY Git state, both control flows, every outcome of every Git call: without --from-ref the
    tags never change; without --to-branch the current branch stays current and no other branch moves;
@@ -88,7 +89,6 @@ Check automation_preserves_user_view :
 Check readonly_commands_commit_nothing :
   forall s c g, fixed_P20 s = true -> from_ref s = None -> c_delta c = [] -> c_delta2 c = [] ->
   (forall p, managed p = true -> tget (g_wt g) p = tget (g_index g) p) ->
-  Known_staged_and_unstaged_same_path c g = false ->
   g_log (snd (fst (dispatch s c g))) = g_log g.
 
 (* ---- concrete states ------------------------------------------------------------------------- *)
@@ -195,6 +195,9 @@ Example p24_outcome :
   (let g' := snd (fst (dispatch (st true None) cmd_readonly g_p24)) in
    tget (g_index g') p_f = Some [1; 1] /\ tget (g_wt g') p_f = Some [1; 3] /\ length (g_stash g') = 1%nat).
 Proof. vm_compute. repeat split. Qed.
+Example p24_readonly_still_commits_nothing :
+  managed_clean g_p24 /\ g_log (snd (fst (dispatch (st true None) cmd_readonly g_p24))) = g_log g_p24.
+Proof. split; [apply managed_clean_b_ok; vm_compute; reflexivity|vm_compute; reflexivity]. Qed.
 Theorem staged_and_unstaged_refuted : ~ C15_full.
 Proof.
   intros H. specialize (H (st true None) cmd_readonly g_p24 eq_refl eq_refl eq_refl eq_refl).
